@@ -78,6 +78,11 @@ check("C13", "model_checking",
       "Every stack of <=3 tables whose tables hold, per ref, nothing / an entry at one of two times / a tombstone of the entry in the table below (quick: reduced options for the second ref), with refs present, x every expiry configuration from {Time: unset, below, equal to, between and above the data values} x {Min, Max update index: unset, 1..4}: CompactAll(cfg) on the real Stack must leave exactly the entries the reference rule keeps (drop iff time < Time or index outside [Min,Max]), every kept field identical, refs untouched, and a handle opened afterwards must see the same.",
       SEQ_NOTE, "bounded-exhaustive enumeration of stacks x expiry configurations on the real Stack against the reference expiry rule", "DESIGN.md 6/C13", "seqbfs")
 
+check("C17", "model_checking",
+      "(a) The real segment chooser is run on EVERY table-size vector of length 0..5 (thorough: 0..7, 39 million vectors) over 12 sizes straddling the power-of-two class boundaries: it must report nothing iff no two adjacent sizes share a size class, otherwise a contiguous in-range segment of at least two tables, and iterating 'suggest, replace by the sum' must terminate in fewer than len steps. (b) 144 single-writer workload shapes (name length x value kind x 1/3/20 refs per transaction x fresh or rewritten names x 4 write configurations) of identical-size transactions run on the real Stack for N = 512 (thorough 4096) transactions, checked after EVERY Add: a compaction that ran reduced the table count and did not fail, depth <= 2*log2(n), Stats.EntriesWritten <= n*log2(n)*entries per transaction.",
+      "In-memory directory in atomic mode (single writer). 'For all N' is decided up to the stated N. Three small-N exceedances of the entries bound (n = 3, 4, 12) are genuine but benign consequences of the policy and are listed as known findings; every other n is checked.",
+      "exhaustive enumeration of size vectors on the real chooser + exhaustive per-step checking of workload histories on the real Stack", "DESIGN.md 6/C17", "autocompact")
+
 ALL = [f"C{n:02d}" for n in range(1, 20)]
 NOT_YET = "check not built yet in this working session (design in DESIGN.md section 6); will be claimed once it runs"
 
@@ -98,6 +103,8 @@ manifest = {
          "kind_free_text": "engine E2: bounded-exhaustive enumeration of tables, stacks, lookup keys and configurations on the real writer/reader/merged view against reference models"},
         {"name": "seqbfs", "path": "harness/seqbfs", "serves_properties": ["C07", "C09", "C12", "C13"],
          "kind_free_text": "sequential-history engine: explicit-state search over operation sequences on real Stack handles in atomic mode against reference models (internal/hist is shared with C14)"},
+        {"name": "autocompact", "path": "harness/autocompact", "serves_properties": ["C17"],
+         "kind_free_text": "exhaustive size-vector enumeration on the real segment chooser; workload histories on the real Stack checked after every Add"},
         {"name": "crashseq", "path": "harness/crashseq", "serves_properties": ["C06"],
          "kind_free_text": "engine E1 in sequential mode: every filesystem-call boundary of a call is a crash point; survivor program on the real code"},
     ],
